@@ -621,7 +621,7 @@ func RunC04DictReset(ctx *core.Ctx) {
 			for j := range jobs {
 				if j.dt != nil {
 					w.r = ctx.Rand("c04dictreset/api/" + j.dt.name)
-					for i := 0; i < ctx.Scale(500, 2500); i++ {
+					for i := 0; i < ctx.Scale(500, 1500); i++ {
 						s := w.sessionGen(*j.dt)
 						if i == 0 {
 							ctx.Sample(map[string]any{"dictionary session": c4short(s.canon())})
@@ -634,7 +634,7 @@ func RunC04DictReset(ctx *core.Ctx) {
 						shape = "repeated"
 					}
 					w.r = ctx.Rand("c04dictreset/writer/" + shape + "/" + j.tt.name + "/" + j.mode)
-					for i := 0; i < ctx.Scale(12, 60); i++ {
+					for i := 0; i < ctx.Scale(12, 40); i++ {
 						w.writerSessionCase(*j.tt, j.mode, c4WriterGroups(*j.tt, w.r, j.mode))
 					}
 				}
